@@ -10,6 +10,7 @@ import (
 	"fmt"
 	"net"
 	"os"
+	"strings"
 	"sync"
 )
 
@@ -52,6 +53,10 @@ type Proxy struct {
 	conns    []*pconn
 	Log      []string // message log: "conn dir n method/id"
 	closed   bool
+	// Payloads, when KeepPayloads > 0, holds the last KeepPayloads messages
+	// ("conn dir n <json, truncated>"), for witnesses.
+	KeepPayloads int
+	Payloads     []string
 }
 
 type pconn struct {
@@ -116,6 +121,26 @@ func (p *Proxy) BlackHoleAll() {
 	}
 	p.Log = append(p.Log, "black hole on all live connections")
 	p.mu.Unlock()
+}
+
+// SetKeepPayloads makes the proxy keep the last n messages.
+func (p *Proxy) SetKeepPayloads(n int) {
+	p.mu.Lock()
+	p.KeepPayloads = n
+	p.mu.Unlock()
+}
+
+// PayloadsContaining returns the kept payloads that contain s.
+func (p *Proxy) PayloadsContaining(s string) []string {
+	p.mu.Lock()
+	defer p.mu.Unlock()
+	var out []string
+	for _, pl := range p.Payloads {
+		if strings.Contains(pl, s) {
+			out = append(out, pl)
+		}
+	}
+	return out
 }
 
 // Accepted returns the number of connections accepted so far.
@@ -220,6 +245,16 @@ func (p *Proxy) pump(pc *pconn, dir Dir, from, to net.Conn) {
 			}
 		}
 		p.Log = append(p.Log, fmt.Sprintf("conn%d %s %d %s", pc.idx, dir, n, describe(raw)))
+		if p.KeepPayloads > 0 {
+			pl := string(raw)
+			if len(pl) > 1500 {
+				pl = pl[:1500] + "..."
+			}
+			p.Payloads = append(p.Payloads, fmt.Sprintf("conn%d %s %d %s", pc.idx, dir, n, pl))
+			if len(p.Payloads) > p.KeepPayloads {
+				p.Payloads = p.Payloads[len(p.Payloads)-p.KeepPayloads:]
+			}
+		}
 		if fire != nil {
 			fire.Fired = true
 			p.mu.Unlock()
